@@ -295,6 +295,29 @@ theorem identity_without_calls (c : Cfg) (n : Node) (h : noTarget n = true) :
   unfold processOut
   cases fp <;> simp [rewrite, h2]
 
+/-- `Process` for a statement TEXT holding several statements (all of which the driver executes):
+every statement is rewritten and kept; the text is replaced only when one of them changed. -/
+def processOutMulti (c : Cfg) (text : String) (parsed : List Node) (render : Node → String) : String :=
+  if parsed.any (fun n => (rewrite c n).2.modified) then
+    "; ".intercalate (parsed.map fun n => render (rewrite c n).1)
+  else text
+
+/-- a multi-statement text none of whose statements calls any of the nine functions is replicated
+byte for byte; otherwise every one of its statements is kept (as many rendered statements as parsed
+ones) and each is free of non-deterministic calls -/
+theorem multi_statement_text (c : Cfg) (text : String) (parsed : List Node) (render : Node → String) :
+    ((∀ n ∈ parsed, noTarget n = true) → processOutMulti c text parsed render = text) ∧
+    ((parsed.map fun n => (rewrite c n).1).length = parsed.length) ∧
+    (c.rwRand = true → c.rwTime = true → ∀ n ∈ parsed, clean false (rewrite c n).1 = true) := by
+  refine ⟨fun h => ?_, by simp, fun hr ht n _ => no_nondet_left c hr ht n⟩
+  unfold processOutMulti
+  have : parsed.any (fun n => (rewrite c n).2.modified) = false := by
+    rw [List.any_eq_false]
+    intro n hn
+    have := (identity_without_calls c n (h n hn)).2.1
+    simp [this]
+  simp [this]
+
 /-- and a statement the parser rejects is passed through unchanged (by design) -/
 theorem unparsable_unchanged (c : Cfg) (text : String) (fp : Bool) (render : Node → String) :
     processOut c text fp none render = text := by
